@@ -1,10 +1,10 @@
 package main
 
 import (
-	"strconv"
 	"encoding/json"
 	"fmt"
 	"sort"
+	"strconv"
 	"strings"
 
 	"github.com/nlnwa/whatwg-url/canonicalizer"
@@ -117,8 +117,8 @@ func (r *Rng) webURL() *webURL {
 
 type spellOpts struct {
 	caseScheme, caseHost, defaultPort, dotSeg, tabNl, ws, emptyFrag bool
-	pct                                                              bool // hex case + optional / nested percent-encoding of unreserved characters
-	depth                                                            int
+	pct                                                             bool // hex case + optional / nested percent-encoding of unreserved characters
+	depth                                                           int
 }
 
 // spellText writes a component's characters, each literal or escaped up to the given nesting depth
